@@ -126,6 +126,9 @@ def coq_build(targets=None, jobs=16):
 COMPONENT_OWNER = {
     "Proofs/PgTieProofs.vo": "C13",      # static tie of the Postgres store: depends on Gen/PgTie.v (translate/pgtie.go)
     "Properties/C13pg.vo": "C13",
+    "Proofs/AdminProxyShape.vo": "C14",  # retry policy / proxied methods of the MCP Admin-proxy transport: depend on Gen/AdminProxy.v (translate/adminproxy.go)
+    "Proofs/ManageProxyProofs.vo": "C14",
+    "Properties/C14proxy.vo": "C14",
 }
 
 
